@@ -1550,4 +1550,282 @@ theorem binvert_spec (u n : Nat) (hn : 1 ≤ n) (hodd : u % 2 = 1) : (binvert u 
   rw [h4, Nat.mod_eq_of_lt h1lt]
 
 
+
+/-! ### window sizes, the table of odd powers, mpn_powlo -/
+
+theorem win_size_bounds (eb : Nat) : 1 ≤ win_size eb ∧ win_size eb ≤ 63 := by
+  unfold win_size winTab
+  simp only [winScan]
+  split_ifs <;> omega
+
+/-- for exponents `> 1` powlo.c's window size table gives the same width as powm.c's. -/
+theorem win_size_lo_eq (eb : Nat) (h : 2 ≤ eb) : win_size_lo eb = win_size eb := by
+  unfold win_size_lo win_size
+  rw [winScan]
+  simp only [show eb > 1 by omega, if_true]
+
+theorem win_size_lo_bounds (eb : Nat) (h : 2 ≤ eb) : 1 ≤ win_size_lo eb ∧ win_size_lo eb ≤ 63 := by
+  rw [win_size_lo_eq eb h]; exact win_size_bounds eb
+
+theorem oddPowers_rel {α : Type} (mul : α → α → α) (b2 : α) (Rel : α → Nat → Prop)
+    (hstep : ∀ x k, Rel x k → Rel (mul x b2) (k + 2)) (d : α) :
+    ∀ (c : Nat) (x : α) (k : Nat), Rel x k → ∀ i, i ≤ c → Rel ((oddPowers mul b2 c x).getD i d) (k + 2 * i) := by
+  intro c
+  induction c with
+  | zero =>
+    intro x k hx i hi
+    have : i = 0 := by omega
+    subst this
+    simpa [oddPowers] using hx
+  | succ c ih =>
+    intro x k hx i hi
+    cases i with
+    | zero => simpa [oddPowers] using hx
+    | succ j =>
+      have := ih (mul x b2) (k + 2) (hstep x k hx) j (by omega)
+      have e : k + 2 + 2 * j = k + 2 * (j + 1) := by ring
+      rw [e] at this
+      simpa [oddPowers] using this
+
+theorem sizeinbase2_ge_two (ep : List Nat) (hep : Norm ep) (hne : ep ≠ []) (h2 : 2 ≤ val ep) : 2 ≤ sizeinbase2 ep := by
+  obtain ⟨h1, _, h3⟩ := sizeinbase2_spec ep hep.1 hne (hep.2 hne)
+  by_contra hlt
+  have : sizeinbase2 ep = 1 := by omega
+  rw [this] at h3; simp at h3; omega
+
+/-- mpn_powlo (value level model of powlo.c): `b^e mod B^n` for every `b`, every exponent `> 1` in normal form. -/
+theorem mpn_powlo_val_spec (bp ep : List Nat) (n : Nat) (hbp : Limbs bp) (hep : Norm ep) (hne : ep ≠ [])
+    (h2 : 2 ≤ val ep) : mpn_powlo_val bp ep n = val bp ^ val ep % B ^ n := by
+  unfold mpn_powlo_val
+  simp only
+  set Bn := B ^ n with hBn
+  set b := val (bp.take n) % Bn with hb
+  have hbb : b = val bp % Bn := by rw [hb, ← val_take_mod bp hbp, Nat.mod_mod]
+  obtain ⟨hw1, hw63⟩ := win_size_lo_bounds _ (sizeinbase2_ge_two ep hep hne h2)
+  set w := win_size_lo (sizeinbase2 ep) with hw
+  let Rel : Nat → Nat → Prop := fun x k => x = b ^ k % Bn
+  have hsqr : ∀ r k, Rel r k → Rel ((r * r) % Bn) (2 * k) := by
+    intro r k hr
+    show (r * r) % Bn = b ^ (2 * k) % Bn
+    rw [hr, ← Nat.mul_mod, ← pow_add]; congr 2; omega
+  have hmulg : ∀ x y j k, Rel x j → Rel y k → Rel ((x * y) % Bn) (j + k) := by
+    intro x y j k hx hy
+    show (x * y) % Bn = b ^ (j + k) % Bn
+    rw [hx, hy, ← Nat.mul_mod, ← pow_add]
+  have hb1 : Rel b 1 := by show b = b ^ 1 % Bn; rw [pow_one, hb, Nat.mod_mod]
+  have hb2 : Rel ((b * b) % Bn) 2 := hmulg b b 1 1 hb1 hb1
+  have htab : ∀ i, i < 2 ^ (w - 1) →
+      Rel ((oddPowers (fun x y => (x * y) % Bn) ((b * b) % Bn) (2 ^ (w - 1) - 1) b).getD i 0) (2 * i + 1) := by
+    intro i hi
+    have := oddPowers_rel (fun x y => (x * y) % Bn) ((b * b) % Bn) Rel
+      (fun x k hx => hmulg x _ k 2 hx hb2) 0 (2 ^ (w - 1) - 1) b 1 hb1 i (by omega)
+    rwa [Nat.add_comm] at this
+  have hres := windowExp_rel (fun x => (x * x) % Bn) (fun x y => (x * y) % Bn)
+    (fun i => (oddPowers (fun x y => (x * y) % Bn) ((b * b) % Bn) (2 ^ (w - 1) - 1) b).getD i 0) Rel
+    ep hep.1 hne (hep.2 hne) w hw1 hw63 hsqr
+    (fun r k i hi hr => hmulg r _ k (2 * i + 1) hr (htab i hi)) htab
+  have : windowExp (fun x => (x * x) % Bn) (fun x y => (x * y) % Bn)
+    (fun i => (oddPowers (fun x y => (x * y) % Bn) ((b * b) % Bn) (2 ^ (w - 1) - 1) b).getD i 0) ep (sizeinbase2 ep) w
+      = b ^ val ep % Bn := hres
+  rw [this, hbb, ← Nat.pow_mod]
+
+theorem mpn_powlo_spec (bp ep : List Nat) (n : Nat) (hbp : Limbs bp) (hep : Norm ep) (hne : ep ≠ [])
+    (h2 : 2 ≤ val ep) : val (mpn_powlo bp ep n) = val bp ^ val ep % B ^ n := by
+  unfold mpn_powlo
+  rw [val_toLimbs, mpn_powlo_val_spec bp ep n hbp hep hne h2, Nat.mod_mod]
+
+
+
+/-! ### mpn_redc_n, the reducer of mpn_powm, mpn_powm -/
+
+/-- mpn_redc_n (value level): result below `B^n`, `result·B^n ≡ u (mod m)`, and `≤ m` for `u < B^n`. -/
+theorem redc_n_spec (u m n ip : Nat) (hm : 0 < m) (hmn : m < B ^ n) (hu : u < B ^ n * B ^ n)
+    (hip : (ip * m) % B ^ n = 1 % B ^ n) :
+    redc_n u m n ip < B ^ n ∧ (redc_n u m n ip * B ^ n ≡ u [MOD m]) ∧ (u < B ^ n → redc_n u m n ip ≤ m) := by
+  unfold redc_n
+  simp only
+  set Bn := B ^ n with hBn
+  have hBpos : 0 < Bn := Nat.pow_pos B_pos
+  set X := (u % Bn * ip) % Bn with hX
+  have hXlt : X < Bn := Nat.mod_lt _ hBpos
+  -- low halves agree
+  have hlow : (X * m) % Bn = u % Bn := by
+    have h1 : X * m ≡ u % Bn * ip * m [MOD Bn] := (Nat.mod_modEq _ _).mul_right m
+    have h2 : u % Bn * ip * m = u % Bn * (ip * m) := by ring
+    have h3 : u % Bn * (ip * m) ≡ u % Bn * 1 [MOD Bn] := Nat.ModEq.mul_left _ hip
+    have h4 : X * m ≡ u % Bn [MOD Bn] := by rw [h2] at h1; simpa using h1.trans h3
+    unfold Nat.ModEq at h4; rw [h4, Nat.mod_mod]
+  have huh : u / Bn % Bn = u / Bn := Nat.mod_eq_of_lt (Nat.div_lt_of_lt_mul hu)
+  rw [huh]
+  have hyh : X * m / Bn < m := by
+    apply Nat.div_lt_of_lt_mul
+    exact Nat.mul_lt_mul_of_pos_right hXlt hm
+  have hu_split := Nat.div_add_mod u Bn
+  have hy_split := Nat.div_add_mod (X * m) Bn
+  rw [hlow] at hy_split
+  generalize u / Bn = uh at *
+  generalize X * m / Bn = yh at *
+  generalize u % Bn = ul at *
+  by_cases hlt : uh < yh
+  · simp only [hlt, if_true]
+    have hr : (uh + Bn - yh + m) % Bn = uh + m - yh := by
+      have : uh + Bn - yh + m = (uh + m - yh) + Bn := by omega
+      rw [this, Nat.add_mod_right, Nat.mod_eq_of_lt (by omega)]
+    rw [hr]
+    refine ⟨by omega, ?_, fun _ => by omega⟩
+    -- (uh + m - yh)·Bn + X·m = u + m·Bn
+    have e : (uh + m - yh) * Bn + X * m = u + Bn * m := by
+      have h1 : (uh + m - yh) * Bn + yh * Bn = (uh + m) * Bn := by rw [← Nat.add_mul]; congr 1; omega
+      nlinarith [h1, hu_split, hy_split]
+    have h1 : (uh + m - yh) * Bn + X * m ≡ (uh + m - yh) * Bn [MOD m] := by
+      unfold Nat.ModEq; rw [Nat.add_mul_mod_self_right]
+    have h2 : u + Bn * m ≡ u [MOD m] := by unfold Nat.ModEq; rw [Nat.add_mul_mod_self_right]
+    exact h1.symm.trans (e ▸ h2)
+  · simp only [hlt, if_false]
+    refine ⟨by have : uh < Bn := by rw [← huh]; exact Nat.mod_lt _ hBpos
+               omega, ?_, ?_⟩
+    · have e : (uh - yh) * Bn + X * m = u := by
+        have h1 : (uh - yh) * Bn + yh * Bn = uh * Bn := by rw [← Nat.add_mul]; congr 1; omega
+        nlinarith [h1, hu_split, hy_split]
+      have h1 : (uh - yh) * Bn + X * m ≡ (uh - yh) * Bn [MOD m] := by
+        unfold Nat.ModEq; rw [Nat.add_mul_mod_self_right]
+      exact h1.symm.trans (by rw [e])
+    · intro hul
+      have : uh = 0 := by
+        by_contra h0
+        have : Bn * 1 ≤ Bn * uh := Nat.mul_le_mul_left _ (by omega)
+        omega
+      omega
+
+
+theorem val_mod_two (l : List Nat) : val l % 2 = l.headD 0 % 2 := by
+  cases l with
+  | nil => simp
+  | cons x xs =>
+    simp only [val_cons, List.headD_cons]
+    have : B = 2 * 2 ^ 63 := by rw [B_eq_two_pow]; rfl
+    rw [this, Nat.mul_assoc, Nat.add_mul_mod_self_left]
+
+/-- the reduction used by mpn_powm (redc_1 below the threshold, redc_n above): on `x < B^(2n)` it returns
+    a residue `< B^n` with `red x · B^n ≡ x (mod m)`; on `x < B^n` the result is `≤ m`. -/
+theorem reducer_spec (thr : Nat) (mp : List Nat) (hmp : Limbs mp) (hn : 1 ≤ mp.length) (hodd : val mp % 2 = 1) :
+    ∀ x, x < B ^ mp.length * B ^ mp.length →
+      reducer thr mp x < B ^ mp.length ∧ (reducer thr mp x * B ^ mp.length ≡ x [MOD val mp]) ∧
+      (x < B ^ mp.length → reducer thr mp x ≤ val mp) := by
+  intro x hx
+  have hm0 : mp.headD 0 % 2 = 1 := by rw [← val_mod_two]; exact hodd
+  have hmlt := val_lt mp hmp
+  unfold reducer
+  simp only
+  by_cases hthr : mp.length < thr
+  · simp only [hthr, if_true]
+    have hhd : mp.headD 1 = mp.headD 0 := by
+      cases mp with
+      | nil => simp at hn
+      | cons a l => rfl
+    have hinv := neg_modlimb_invert_spec (mp.headD 0) hm0
+    rw [← hhd] at hinv
+    rw [hhd] at hinv
+    have hx2 : x < B ^ (2 * mp.length) := by rw [two_mul, pow_add]; exact hx
+    have htv : val (toLimbs (2 * mp.length) x) = x := val_toLimbs_lt _ _ hx2
+    obtain ⟨Q, k, hQ, hk, he, hL, hlen⟩ := redc_1_identity (toLimbs (2 * mp.length) x) mp
+      ((B - modlimb_invert (mp.headD 1)) % B) hn (Limbs_toLimbs _ _) hmp (toLimbs_length _ _) (by rw [hhd]; exact hinv)
+    rw [htv] at he
+    have hlt := val_lt _ hL
+    rw [hlen] at hlt
+    generalize val (redc_1 (toLimbs (2 * mp.length) x) mp ((B - modlimb_invert (mp.headD 1)) % B)) = r at *
+    set N := B ^ mp.length with hN
+    have hNpos : 0 < N := Nat.pow_pos B_pos
+    refine ⟨hlt, ?_, ?_⟩
+    · have e : r * N + (k * N) * val mp = x + Q * val mp := by rw [← he]; ring
+      have h2 : r * N + (k * N) * val mp ≡ r * N [MOD val mp] := by
+        unfold Nat.ModEq; rw [Nat.add_mul_mod_self_right]
+      have h3 : x + Q * val mp ≡ x [MOD val mp] := by
+        unfold Nat.ModEq; rw [Nat.add_mul_mod_self_right]
+      exact h2.symm.trans (e ▸ h3)
+    · intro hxN
+      have h1 : N * (r + k * val mp) < N * (1 + val mp) := by
+        have e : N * (r + k * val mp) = x + Q * val mp := by rw [← he]; ring
+        have : Q * val mp ≤ N * val mp := Nat.mul_le_mul_right _ (le_of_lt hQ)
+        rw [e, Nat.mul_add, Nat.mul_one]; omega
+      have := Nat.lt_of_mul_lt_mul_left h1
+      have hk0 : 0 ≤ k * val mp := Nat.zero_le _
+      omega
+  · simp only [hthr, if_false]
+    have hip := binvert_spec (val mp) mp.length hn hodd
+    have h1lt : 1 < B ^ mp.length := by
+      have h1 : B ^ 1 ≤ B ^ mp.length := Nat.pow_le_pow_right B_pos hn
+      rw [pow_one] at h1
+      have hB : 1 < B := by simp [B_eq]
+      omega
+    exact redc_n_spec x (val mp) mp.length _ (by omega) hmlt hx (by rw [hip, Nat.mod_eq_of_lt h1lt])
+
+/-- mpn_powm (value-level model of mpn/generic/powm.c over the limb-level redc_1): for every odd modulus
+    of `n ≥ 1` limbs, every base, every exponent `> 1` in normal form and every REDC threshold, the
+    result is `b^e mod m`. -/
+theorem mpn_powm_val_spec (thr : Nat) (bp ep mp : List Nat) (hep : Norm ep) (hne : ep ≠ [])
+    (hmp : Limbs mp) (hn : 1 ≤ mp.length) (hodd : val mp % 2 = 1) :
+    mpn_powm_val thr bp ep mp = val bp ^ val ep % val mp := by
+  have hred := reducer_spec thr mp hmp hn hodd
+  unfold mpn_powm_val
+  simp only
+  set red := reducer thr mp with hredd
+  set N := B ^ mp.length with hN
+  set m := val mp with hm
+  set b := val bp with hb
+  have hNpos : 0 < N := Nat.pow_pos B_pos
+  have hmpos : 0 < m := by omega
+  have hmlt : m < N := val_lt mp hmp
+  have hcop : Nat.gcd m N = 1 := by
+    have : N = 2 ^ (64 * mp.length) := by rw [hN, B_eq_two_pow, ← pow_mul]
+    rw [this]; exact (coprime_two_pow_odd _ m hodd).symm
+  obtain ⟨hw1, hw63⟩ := win_size_bounds (sizeinbase2 ep)
+  set w := win_size (sizeinbase2 ep) with hw
+  let Rel : Nat → Nat → Prop := fun x k => x < N ∧ x ≡ b ^ k * N [MOD m]
+  have hmulg : ∀ x y j k, Rel x j → Rel y k → Rel (red (x * y)) (j + k) := by
+    intro x y j k hx hy
+    have hxy : x * y < N * N := Nat.mul_lt_mul'' hx.1 hy.1
+    obtain ⟨h1, h2, _⟩ := hred (x * y) hxy
+    refine ⟨h1, ?_⟩
+    have h3 : x * y ≡ (b ^ j * N) * (b ^ k * N) [MOD m] := hx.2.mul hy.2
+    have h4 : (b ^ j * N) * (b ^ k * N) = (b ^ (j + k) * N) * N := by rw [pow_add]; ring
+    rw [h4] at h3
+    exact Nat.ModEq.cancel_right_of_coprime hcop (h2.trans h3)
+  have hsqr : ∀ r k, Rel r k → Rel (red (r * r)) (2 * k) := by
+    intro r k hr
+    have := hmulg r r k k hr hr
+    rwa [← two_mul] at this
+  have hpp0 : Rel ((b * N) % m) 1 := by
+    refine ⟨lt_trans (Nat.mod_lt _ hmpos) hmlt, ?_⟩
+    rw [pow_one]; exact Nat.mod_modEq _ _
+  have hb2 : Rel (red ((b * N) % m * ((b * N) % m))) 2 := hmulg _ _ 1 1 hpp0 hpp0
+  set pp0 := (b * N) % m with hpp0d
+  set b2 := red (pp0 * pp0) with hb2d
+  have htab : ∀ i, i < 2 ^ (w - 1) →
+      Rel ((oddPowers (fun x y => red (x * y)) b2 (2 ^ (w - 1) - 1) pp0).getD i 0) (2 * i + 1) := by
+    intro i hi
+    have := oddPowers_rel (fun x y => red (x * y)) b2 Rel
+      (fun x k hx => hmulg x _ k 2 hx hb2) 0 (2 ^ (w - 1) - 1) pp0 1 hpp0 i (by omega)
+    rwa [Nat.add_comm] at this
+  have hres := windowExp_rel (fun x => red (x * x)) (fun x y => red (x * y))
+    (fun i => (oddPowers (fun x y => red (x * y)) b2 (2 ^ (w - 1) - 1) pp0).getD i 0) Rel
+    ep hep.1 hne (hep.2 hne) w hw1 hw63 hsqr
+    (fun r k i hi hr => hmulg r _ k (2 * i + 1) hr (htab i hi)) htab
+  generalize windowExp (fun x => red (x * x)) (fun x y => red (x * y))
+    (fun i => (oddPowers (fun x y => red (x * y)) b2 (2 ^ (w - 1) - 1) pp0).getD i 0) ep (sizeinbase2 ep) w = r at *
+  obtain ⟨hrlt, hrc⟩ := hres
+  obtain ⟨_, h2', h3'⟩ := hred r (lt_of_lt_of_le hrlt (Nat.le_mul_of_pos_left _ hNpos))
+  have hle := h3' hrlt
+  have hc : red r ≡ b ^ val ep [MOD m] := Nat.ModEq.cancel_right_of_coprime hcop (h2'.trans hrc)
+  by_cases hge : red r ≥ m
+  · simp only [hge, if_true]
+    have : red r = m := by omega
+    rw [this] at hc ⊢
+    unfold Nat.ModEq at hc
+    rw [← hc]; simp
+  · simp only [hge, if_false]
+    unfold Nat.ModEq at hc
+    rw [← hc, Nat.mod_eq_of_lt (by omega)]
+
+
 end Mpir.Powm
